@@ -194,8 +194,8 @@ impl<'a, P, const SEED_SIZE: usize> ParameterizedDecode<(&'a Poplar1<P, SEED_SIZ
     ) -> Result<Self, CodecError> {
         let idpf_key = Seed::decode(bytes)?;
         let corr_seed = Seed::decode(bytes)?;
-        let mut corr_inner = Vec::with_capacity(poplar1.bits - 1);
-        for _ in 0..poplar1.bits - 1 {
+        let mut corr_inner = Vec::with_capacity(poplar1.bits.saturating_sub(1));
+        for _ in 0..poplar1.bits.saturating_sub(1) {
             corr_inner.push([Field64::decode(bytes)?, Field64::decode(bytes)?]);
         }
         let corr_leaf = [Field255::decode(bytes)?, Field255::decode(bytes)?];
@@ -656,7 +656,7 @@ impl<'a, P: Xof<SEED_SIZE>, const SEED_SIZE: usize>
         (poplar1, agg_param): &(&'a Poplar1<P, SEED_SIZE>, &'a Poplar1AggregationParam),
         bytes: &mut Cursor<&[u8]>,
     ) -> Result<Self, CodecError> {
-        if agg_param.level() == poplar1.bits - 1 {
+        if agg_param.level() + 1 == poplar1.bits {
             decode_fieldvec(agg_param.prefixes().len(), bytes).map(Poplar1FieldVec::Leaf)
         } else {
             decode_fieldvec(agg_param.prefixes().len(), bytes).map(Poplar1FieldVec::Inner)
@@ -1301,7 +1301,7 @@ impl<P: Xof<SEED_SIZE>, const SEED_SIZE: usize> Aggregator<SEED_SIZE, 16>
 
     fn aggregate_init(&self, agg_param: &Self::AggregationParam) -> Self::AggregateShare {
         Poplar1FieldVec::zero(
-            usize::from(agg_param.level) == self.bits - 1,
+            usize::from(agg_param.level) + 1 == self.bits,
             agg_param.prefixes.len(),
         )
     }
@@ -1348,7 +1348,7 @@ impl<P: Xof<SEED_SIZE>, const SEED_SIZE: usize> Collector for Poplar1<P, SEED_SI
         _num_measurements: usize,
     ) -> Result<Vec<u64>, VdafError> {
         let result = aggregate(
-            usize::from(agg_param.level) == self.bits - 1,
+            usize::from(agg_param.level) + 1 == self.bits,
             agg_param.prefixes.len(),
             agg_shares,
         )?;
